@@ -469,6 +469,9 @@ func (d dom) bad(r *rand.Rand, v vtag) (interface{}, bool) {
 	}
 	// a value at the edge of the kind's range that breaks v: always for an edge
 	// bound, one time in three otherwise
+	if (v.name == "min" || v.name == "max" || v.name == "positive") && d.k.base() == kFloat && r.Intn(5) == 0 {
+		return math.NaN(), true // satisfies no comparison
+	}
 	if v.name == "min" || v.name == "max" || v.name == "positive" {
 		edge := isEdge(v.param)
 		if edge || r.Intn(3) == 0 {
